@@ -891,66 +891,8 @@ def run(ctx, rep):
     rep.analysed["sys_modules_sites"] = n16
 
     # ------------------------------------------------------------ C16.17
-    rep.rule("C16.17", "every entry point that reaches a recursion cycle (the recursive builder, visitors and alias resolution recurse as deep as the program nests) converts RecursionError to JaqalError in a frame above the cycle", floor=5)
-    import networkx as nx
-    g = T.graph(weak=False)
-    sub = g.subgraph([q for q in ea.reachable if q in g])
-
-    def converts(fi):
-        """The function's own body, or a decorator applied to it, catches RecursionError and raises."""
-        nodes = [fi.node]
-        for d in getattr(fi.node, "decorator_list", []):
-            name = d.id if isinstance(d, ast.Name) else d.attr if isinstance(d, ast.Attribute) else None
-            if name is None:
-                continue
-            r = ix.resolve_name(fi.module, name) if hasattr(ix, "resolve_name") else None
-            cand = [x for x in ix.functions.values() if x.name == name and x.cls is None]
-            for c in cand:
-                nodes.append(c.node)
-        for nd in nodes:
-            for t in ast.walk(nd):
-                if isinstance(t, ast.Try):
-                    for h in t.handlers:
-                        names = set()
-                        if h.type is None:
-                            names.add("BaseException")
-                        else:
-                            for x in (h.type.elts if isinstance(h.type, ast.Tuple) else [h.type]):
-                                names.add(ast.unparse(x).split(".")[-1])
-                        if names & {"RecursionError", "RuntimeError", "Exception", "BaseException"} and any(isinstance(x, ast.Raise) and x.exc is not None for b in h.body for x in ast.walk(b)):
-                            return True
-        return False
-    covered = {q for q in sub.nodes if q in ix.functions and not isinstance(ix.functions[q].node, ast.Lambda) and converts(ix.functions[q])}
-    cyclic = set()
-    for comp in nx.strongly_connected_components(sub):
-        if len(comp) > 1:
-            cyclic |= comp
-    for q in sub.nodes:
-        if sub.has_edge(q, q):
-            cyclic.add(q)
-    rep.analysed["recursive_functions"] = len(cyclic)
-    rep.analysed["recursion_guarded_frames"] = sorted(short(c) for c in covered)
-    for e in entries:
-        cons = construct_of(ix.functions[e], "recursion-guard")
-        if e in covered:
-            rep.ok("C16.17", cons, "the entry point itself converts RecursionError", ix.functions[e].loc())
-            continue
-        seen_, stack_ = {e}, [e]
-        hit = None
-        while stack_ and hit is None:
-            q = stack_.pop()
-            if q in cyclic:
-                hit = q
-                break
-            for nxt in sub.successors(q) if q in sub else []:
-                if nxt in covered or nxt in seen_:
-                    continue
-                seen_.add(nxt)
-                stack_.append(nxt)
-        if hit is None:
-            rep.ok("C16.17", cons, "every recursion cycle reachable from here lies below a frame that converts RecursionError", ix.functions[e].loc())
-        else:
-            rep.violation("C16.17", cons, f"{short(hit)} recurses as deep as the program nests and nothing between this entry point and it converts RecursionError: 200 nested blocks (or a long alias chain) escape as RecursionError instead of JaqalError", ix.functions[e].loc(), witness="register q[2]\n" + "{ <" * 3 + " ... (200 levels) ... " + "> }" * 3)
+    from .common import check_recursion_guard
+    check_recursion_guard(ctx, rep, "C16.17", entries, EXCLUDE)
 
     # ------------------------------------------------------------ C16.18
     from .common import check_cached_mutables
@@ -994,6 +936,67 @@ def run(ctx, rep):
                 rep.violation("C16.20", cons, f"`{ast.unparse(nd)[:80]}` is reached without testing `{want}.{what}()`: a pulse-module directory without __init__.py (or a missing import path) raises FileNotFoundError from the parser instead of ImportError", loc, witness="from .mygates usepulses *   (import path holds an empty directory mygates/)")
     if n20 == 0:
         raise AnalysisError("C16.20: no file-based module loading found in jaqalpaq._import (anchor vanished)")
+
+    # ------------------------------------------------------------ C16.21
+    rep.rule("C16.21", "built-in failures on program-sized values are converted: len(range(..)) of program bounds (OverflowError), look-ups of a program's gate name in the native gate table (KeyError), file-system probes of a program-supplied module name (OSError)", floor=3)
+
+    def in_try(f, node, names):
+        for t in walk_no_nested(f.node):
+            if isinstance(t, ast.Try) and any(x is node for b in t.body for x in ast.walk(b)):
+                for h in t.handlers:
+                    hn = {"BaseException"} if h.type is None else {ast.unparse(x).split(".")[-1] for x in (h.type.elts if isinstance(h.type, ast.Tuple) else [h.type])}
+                    if hn & set(names) and any(isinstance(x, ast.Raise) for b in h.body for x in ast.walk(b)):
+                        return True
+        return False
+    n21 = 0
+    for q in sorted(ea.reachable):
+        f = ix.functions[q]
+        if isinstance(f.node, ast.Lambda):
+            continue
+        fl21 = None
+        for nd in walk_no_nested(f.node):
+            # (a) len(range(..)) with non-literal bounds
+            rng_arg = None
+            if isinstance(nd, ast.Call) and isinstance(nd.func, ast.Name) and nd.func.id == "len" and nd.args:
+                a0 = nd.args[0]
+                if isinstance(a0, ast.Name):
+                    defs_ = [st_.value for st_ in iter_stmts(f.body) if isinstance(st_, ast.Assign) and any(isinstance(t_, ast.Name) and t_.id == a0.id for t_ in st_.targets)]
+                    if len(defs_) == 1:
+                        a0 = defs_[0]
+                if isinstance(a0, ast.Call) and isinstance(a0.func, ast.Name) and a0.func.id == "range" and not all(isinstance(a, ast.Constant) for a in a0.args):
+                    rng_arg = a0
+            if rng_arg is not None:
+                n21 += 1
+                cons = construct_of(f, f"len-of-range:{ast.unparse(nd)[:40]}")
+                if in_try(f, nd, ("OverflowError", "ArithmeticError", "Exception", "BaseException")):
+                    rep.ok("C16.21", cons, "OverflowError is converted", f"{f.path}:{nd.lineno}")
+                else:
+                    rep.violation("C16.21", cons, f"`{ast.unparse(nd)}`: the length of a range over program-supplied bounds does not fit a machine integer for a bound like -9223372036854775808: OverflowError escapes instead of JaqalError", f"{f.path}:{nd.lineno}", witness="register r[2]\nmap a r[-9223372036854775808:2]")
+            # (b) native gate table look-ups by a statement's name in the emulator
+            if f.module.startswith("jaqalpaq.emulator") and isinstance(nd, ast.Subscript) and isinstance(nd.ctx, ast.Load) and isinstance(nd.slice, ast.Attribute) and nd.slice.attr == "name":
+                if fl21 is None:
+                    fl21 = FuncFlow(ix, T, f)
+                ids_, roots_ = fl21.depends(nd.value)
+                if any(isinstance(m, ast.Attribute) and m.attr == "native_gates" for e in [nd.value] + list(roots_) for m in ast.walk(e)):
+                    n21 += 1
+                    cons = construct_of(f, f"gate-table-lookup:{ast.unparse(nd)[:40]}")
+                    if in_try(f, nd, ("KeyError", "LookupError", "Exception", "BaseException")):
+                        rep.ok("C16.21", cons, "KeyError is converted", f"{f.path}:{nd.lineno}")
+                    else:
+                        rep.violation("C16.21", cons, f"`{ast.unparse(nd)}` fails with KeyError for a circuit whose gates have no native definition (e.g. parsed with autoload_pulses=False): run_jaqal_circuit lets it escape", f"{f.path}:{nd.lineno}", witness="register r[1]\nprepare_all\nPx r[0]\nmeasure_all   (parsed without a gate set)")
+    # (c) file-system probes
+    probers = [f for f in ix.functions.values() if f.module == "jaqalpaq._import" and any(isinstance(m, ast.Call) and isinstance(m.func, ast.Attribute) and m.func.attr in ("is_file", "is_dir", "listdir", "exists") for m in walk_no_nested(f.node))]
+    for pf in probers:
+        n21 += 1
+        cons = construct_of(pf, "probe-oserror-converted")
+        sites = [(g, cs.node) for g in ix.functions.values() if g.module == "jaqalpaq._import" for cs in T.callsites(g) if pf in cs.targets and isinstance(cs.node, ast.Call)]
+        own = all(in_try(pf, m, ("OSError", "Exception", "BaseException")) for m in walk_no_nested(pf.node) if isinstance(m, ast.Call) and isinstance(m.func, ast.Attribute) and m.func.attr in ("is_file", "is_dir", "listdir", "exists"))
+        if own or (sites and all(in_try(g, n_, ("OSError", "Exception", "BaseException")) for g, n_ in sites)):
+            rep.ok("C16.21", cons, "an OSError from probing the file system becomes ImportError", pf.loc())
+        else:
+            rep.violation("C16.21", cons, "a module name the file system cannot probe (300 characters: ENAMETOOLONG) raises OSError from the parser instead of ImportError", pf.loc(), witness="from ." + "g" * 12 + "...(300) usepulses *")
+    if n21 == 0:
+        raise AnalysisError("C16.21: no instance found (anchors vanished)")
 
 
 KNOWN_SUBMODULES = {
